@@ -978,7 +978,8 @@ def check_C08(chk):
         replay_stage(chk, bins, v, ["replay", "--kind", "iter", "--cases", hist, "--contents", p3], "bounds: iterator cover on multi-word contents, %s" % v, hooks=True, oob_only=True)
         replay_stage(chk, bins, v, ["replay", "--kind", "wm", "--cases", wmc], "bounds: wavelet matrix and core mappings, %s" % v, hooks=True, oob_only=True)
         for pv in vecs:
-            replay_stage(chk, bins, v, ["replay", "--kind", "vec", "--cases", pv], "bounds: vector histories, %s" % v, hooks=True, oob_only=True)
+            replay_stage(chk, bins, v, ["replay", "--kind", "vec", "--cases", pv, "--abuse", "1"],
+                         "bounds: vector histories, then writes outside the vector through the safe API and use as a bitvector, %s" % v, hooks=True, oob_only=True)
         replay_stage(chk, bins, v, ["replay", "--kind", "mapped", "--cases", mp], "bounds: mapped views carved at record starts, outside offsets and on truncated files, %s" % v, hooks=True, oob_only=True)
         replay_stage(chk, bins, v, ["replay", "--kind", "faults", "--cases", fp], "bounds: structures loaded from bytes the library wrote, every truncation, %s" % v, hooks=True, oob_only=True)
         one = os.path.join(chk.work, "bigload.cases.ndjson")
